@@ -13,7 +13,7 @@ pub fn def() -> CheckDef {
         id: "C12",
         title: "Restart / reload transparency at quiescent points",
         case,
-        rule: "case = generated deterministic-outcome model (control flow, catches, generated acts, set/code writers, env) x scripted client table answered by a canonical sequential client (smallest (key, occurrence) first, so that the client-visible history is the same in both runs) x run A without faults, then runs B_i that inject at quiescent point i either an engine restart on the same store (SQLite file, or in-memory collections transplanted into the new engine) or an eviction of the process from the cache - at every quiescent point of A in the thorough tier, at up to 5 seeded points (plus one pair) in the quick tier. B must issue the same client actions with the same results, produce per phase (between two client actions) the same multiset of messages up to ids/tids/timestamps, the same final task outcomes and the same terminal event and outputs. non-trivial = the fault hit a point where the process had an open interrupt and at least two client actions followed; distinct = distinct (scenario hash, fault point, fault kind)",
+        rule: "case = generated deterministic-outcome model (control flow, catches, generated acts, set/code writers, env; a third with steps/branches/acts written without an id - the engine generates one, observations map it back through the node name) x scripted client table answered by a canonical sequential client (smallest (key, occurrence) first, so that the client-visible history is the same in both runs) x run A without faults, then runs B_i that inject at quiescent point i either an engine restart on the same store (SQLite file, or in-memory collections transplanted into the new engine) or an eviction of the process from the cache - at every quiescent point of A in the thorough tier, at up to 5 seeded points (plus one pair) in the quick tier. B must issue the same client actions with the same results, produce per phase (between two client actions) the same multiset of messages up to ids/tids/timestamps, the same final task outcomes and the same terminal event and outputs. non-trivial = the fault hit a point where the process had an open interrupt and at least two client actions followed; distinct = distinct (scenario hash, fault point, fault kind)",
         level: "fault_enumeration",
         assumptions: &["faults are injected at quiescent points only (the statement's scope)", "a killed engine runs no destructors; only the store survives", "monotone simulated clock", "no storage errors are injected"],
         probes: &["probe.restart_sqlite", "probe.restart_mem", "probe.evict", "probe.fault_with_open_interrupt", "probe.two_faults", "probe.generated_acts", "probe.env", "probe.catch", "probe.nodes_without_id"],
